@@ -117,12 +117,52 @@ package container
 //@ func container.(*containerServer).handleExecve$1 props C07 C10
 //@   arith int
 //@   requires P.st == 2 && c != nil && 0 <= pid && pid < 2147483648
-//@   assigns P.st
-//@   ensures result == nil ==> P.st == 5
-//@   ensures result != nil ==> P.st == 4 || P.st == 9
+//@   assigns P.st, synced
+//@   ensures result == nil ==> P.st == 5 && synced
+//@   ensures result != nil ==> (P.st == 4 || P.st == 9) && synced == old(synced)
 //@   callsite (*containerServer).sendReply: assert @C07 msg.Cred != nil && int(msg.Cred.Pid) == pid
 
-//@ func container.(*containerServer).handleExecve props C10 C12
+//@ func container.intSliceToUintptr props C06
 //@   arith int
-//@   requires P.st == 2
-//@   ensures result == nil ==> P.st == 0 || P.st == 9
+//@   overflow wrap
+//@   requires forall j int :: soff(s) <= j && j < soff(s) + len(s) ==> 0 <= cell(s, j) && cell(s, j) < 2147483648
+//@   assigns nothing
+//@   ensures len(result) == len(s) && (len(s) > 0 ==> fresh(result))
+//@   ensures forall k int :: 0 <= k && k < len(s) ==> result[k] == uintptr(s[k])
+//@   ensures soff(result) == 0
+//@   ensures forall j int :: 0 <= j && j < len(result) ==> cell(result, j) < 2147483648
+//@   loop 0: invariant forall j int :: 0 <= j && j <= rangeindex ==> cell(r, j) < 2147483648
+//@   loop 0: invariant -1 <= rangeindex && rangeindex < len(s) && len(r) == len(s) && fresh(r) && soff(r) == 0
+//@   loop 0: invariant forall k int :: 0 <= k && k <= rangeindex ==> r[k] == uintptr(s[k])
+
+//@ func container.closeOnExecFds props C06
+//@   arith int
+//@   assigns nothing
+//@   loop 0: invariant -1 <= rangeindex && rangeindex < len(s)
+
+// every listed descriptor is closed
+//@ func container.closeFds props C12
+//@   arith int
+//@   assigns FD.closed
+//@   ensures forall k int :: 0 <= k && k < len(s) ==> FD.closed[s[k]]
+//@   ensures forall d int :: old(FD.closed[d]) ==> FD.closed[d]
+//@   loop 0: invariant -1 <= rangeindex && rangeindex < len(s)
+//@   loop 0: invariant forall k int :: 0 <= k && k <= rangeindex ==> FD.closed[s[k]]
+//@   loop 0: invariant forall d int :: old(FD.closed[d]) ==> FD.closed[d]
+
+//@ func container.lookPath
+//@   trusted "PATH search (file-system lookups and string handling only)"
+//@   pure
+
+// execve: every path that returns nil leaves the protocol idle (or the transport lost); every
+// received descriptor is closed; the runner literal always drops capabilities and sets no_new_privs.
+//@ func container.(*containerServer).handleExecve props C04 C10 C12
+//@   arith int
+//@   requires P.st == 2 && c != nil && cmd != nil
+//@   requires forall j int :: soff(msg.Fds) <= j && j < soff(msg.Fds) + len(msg.Fds) ==> 0 <= cell(msg.Fds, j) && cell(msg.Fds, j) < 2147483648
+//@   requires len(msg.Fds) < 1048576
+//@   requires cmd.Seccomp == nil || (len(cmd.Seccomp) >= 1 && len(cmd.Seccomp) <= 65535)
+//@   assigns P.st, S.cb_calls, FD.closed, W.kill_pid, W.kill_count, W.reaped, FD.handed, all(cmd.Argv), K.fdt, K.clo, K.pid, K.secbits, K.caps_empty, K.nnp, K.filter, K.filter_flags, K.uid, K.uid_set, K.gid, K.gid_set, K.groups_set, K.ngroups, K.groups_ptr, K.sid_new, K.ctty, K.cwd, K.host, K.hostlen, K.host_issued, K.domain, K.domainlen, K.domain_issued, K.clone_flags, K.clone3, K.clone_cgroup, K.mnt_src, K.mnt_type, K.mnt_flags, K.mnt_data, K.mnt_done, K.remount, K.remount_done, K.nmount, K.pivoted, K.pivot_new, K.pivot_old, K.old_detached, K.old_removed, K.rl_cur, K.rl_max, K.rl_set, K.traceme, K.stopped_self, K.sync_stage, K.sync_wfile, K.sync_rfile, K.idmap_read, K.unshare_cgroup_issued, K.last_trap, K.last_errno, K.reported, K.reported_loc, K.reported_err, K.reported_idx, K.exec_attempts
+//@   ensures @C10 result == nil ==> P.st == 0 || P.st == 9
+//@   ensures @C12 forall k int :: 0 <= k && k < len(msg.Fds) ==> FD.closed[msg.Fds[k]]
+//@   callsite (*Runner).Start: assert @C04 r.NoNewPrivs && r.DropCaps && r.SyncFunc == syncFunc && r.Seccomp == seccomp && r.Credential == cred
